@@ -60,8 +60,38 @@ def history(ck):
     n = 12 if ck.tier == "quick" else 80
     nops = 0
     keys = ["f", "L", "K", "XX", "YY", "XY", "S12", "S2", "M2", "navg", "D"]
+    # fixed histories on every backend x detrend order: a single-segment request shorter than the record (K = 1, L < N),
+    # then a short request and a full analysis — each compared with a fresh analyzer — and the stored record must be unchanged
+    for backend in ("numba", "numpy"):
+        for order in (-1, 0, 1, 2):
+            for cross in (False, True):
+                g = np.random.default_rng(ck.rng.randint(0, 2 ** 31))
+                N = 1500; fs = 10.0
+                x = 0.8 + 0.002 * np.arange(N) + g.standard_normal(N); y = -1.5 + 0.5 * x + g.standard_normal(N)
+                data = np.vstack([x, y]) if cross else x
+                kw = dict(Jdes=15, Kdes=4, order=order, win="hann", olap=0.5, backend=backend, scheduler="ltf")
+                mk = lambda: SpectrumAnalyzer(data.copy(), fs, **kw)
+                an = mk()
+                rec0 = [np.array(getattr(an, nm), copy=True) for nm in ("x1", "x2") if getattr(an, nm, None) is not None]
+                steps = [("compute_single_bin(0.4, L=%d)" % int(0.93 * N), lambda a: a.compute_single_bin(0.4, L=int(0.93 * N))),
+                         ("compute_single_bin(1.3, L=200)", lambda a: a.compute_single_bin(1.3, L=200)),
+                         ("compute()", lambda a: a.compute()),
+                         ("compute_single_bin(0.4, L=%d)" % int(0.93 * N), lambda a: a.compute_single_bin(0.4, L=int(0.93 * N)))]
+                done = []
+                for what, fn in steps:
+                    nops += 1
+                    a, b = fn(an), fn(mk())
+                    bad = [k for k in keys if not same(a._data[k], b._data[k])]
+                    rec1 = [np.asarray(getattr(an, nm)) for nm in ("x1", "x2") if getattr(an, nm, None) is not None]
+                    if any(not np.array_equal(p, q) for p, q in zip(rec0, rec1)):
+                        bad.append("analyzer's stored record altered")
+                    done.append(what)
+                    if bad:
+                        ck.violation("%s after history %s differs from a fresh analyzer in %s (backend=%s, order=%d, %s)" % (what, done[:-1], bad, backend, order, "cross" if cross else "auto"),
+                                     dict(ops=done, cross=cross, kw=kw, fs=fs, N=N, kind="ramp+offset"), tag="history")
+                        break
     for _ in range(n):
-        r0, an0, info = attrs.make_result(ck.rng, which="full")
+        r0, an0, info = attrs.make_result(ck.rng, which="full", backend=ck.rng.choice(["numba", "numpy", "numpy"]))
         if ck.rng.random() < 0.6:
             info["kw"]["scheduler"] = ck.rng.choice(["ltf", "lpsd"]); info["kw"]["olap"] = ck.rng.choice([0.5, "default", 0.3])
         data = np.vstack([info["x"], info["y"]]) if info["cross"] else info["x"]
@@ -84,7 +114,8 @@ def history(ck):
                 what = "compute()"
             else:
                 planned = [int(v) for v in np.unique(np.asarray(mk().plan()["L"])) if 8 <= int(v) <= info["N"]]
-                L = ck.rng.choice(planned) if planned and ck.rng.random() < 0.6 else ck.rng.choice([64, 100, info["N"] // 3])
+                # lengths from the plan, short ones, and lengths above N/2 (a single segment shorter than the record)
+                L = ck.rng.choice(planned) if planned and ck.rng.random() < 0.5 else ck.rng.choice([64, 100, info["N"] // 3, int(0.95 * info["N"]), int(0.7 * info["N"])])
                 f0 = ck.rng.uniform(2, L / 2 - 2) * info["fs"] / L
                 a, b = an.compute_single_bin(f0, L=L), mk().compute_single_bin(f0, L=L)
                 bad = [k for k in keys if not same(a._data[k], b._data[k])]
